@@ -18,6 +18,53 @@ def sign(a, b) -> str:
     return "lt" if a < b else ("gt" if a > b else "eq")
 
 
+VERSION_KEYS = {"python_version", "python_full_version", "platform_release", "implementation_version"}
+
+
+def _item_eval(lhs, op, rhs, env: dict, extras: list) -> bool:
+    """one marker item: packaging's own evaluation, except (as the properties state) non-reversed `in`/`not in`
+    lists are by token and `extra` is membership of the normalised name in the set of active extras"""
+    import re
+    from packaging.markers import Variable
+    opstr = op.serialize()
+    if isinstance(lhs, Variable):
+        key, lit = lhs.value, rhs.value
+        if key == "extra":
+            active = {canonicalize_name(x) for x in extras}
+            if opstr == "==":
+                return canonicalize_name(lit) in active
+            if opstr == "!=":
+                return canonicalize_name(lit) not in active
+            raise ValueError("extra with " + opstr)
+        if opstr in ("in", "not in"):
+            toks = [t for t in re.split(r"[ ,|]+", lit) if t]
+            if not toks:
+                raise ValueError("empty list")
+            ev = env[key]
+            if key in VERSION_KEYS:
+                hit = any(Version(ev) == Version(t) for t in toks)
+            else:
+                hit = ev in toks
+            return hit if opstr == "in" else not hit
+        qc = "'" if '"' in lit else '"'
+        return Marker(f"{key} {opstr} {qc}{lit}{qc}").evaluate(env)
+    key, lit = rhs.value, lhs.value
+    qc = "'" if '"' in lit else '"'
+    return Marker(f"{qc}{lit}{qc} {opstr} {key}").evaluate(env)
+
+
+def _tok_eval(markers, env: dict, extras: list) -> bool:
+    groups = [[]]
+    for m in markers:
+        if isinstance(m, list):
+            groups[-1].append(_tok_eval(m, env, extras))
+        elif isinstance(m, tuple):
+            groups[-1].append(_item_eval(m[0], m[1], m[2], env, extras))
+        elif m == "or":
+            groups.append([])
+    return any(all(g) for g in groups)
+
+
 def handle(r: dict) -> object:
     op = r["op"]
     try:
@@ -46,6 +93,27 @@ def handle(r: dict) -> object:
         if op == "marker":
             m = Marker(r["s"])
             return ["ok", [m.evaluate(e) for e in r["envs"]]]
+        if op == "mtok":
+            # envs: dicts with "extra" = list of active extras; answers per env: [token-semantics value or None,
+            # plain packaging value or None (only when at most one extra is active)]
+            m = Marker(r["s"])
+            out = []
+            for e in r["envs"]:
+                extras = list(e.get("extra", []))
+                base = {k: v for k, v in e.items() if k != "extra"}
+                base["extra"] = extras[0] if len(extras) == 1 else ""
+                try:
+                    tv = _tok_eval(m._markers, base, extras)
+                except Exception:  # noqa: BLE001
+                    tv = None
+                pv = None
+                if len(extras) <= 1:
+                    try:
+                        pv = m.evaluate(base)
+                    except Exception:  # noqa: BLE001
+                        pv = None
+                out.append([tv, pv])
+            return ["ok", out]
         if op == "markerok":
             Marker(r["s"])
             return ["ok"]
@@ -62,6 +130,23 @@ def handle(r: dict) -> object:
             return ["ok", out]
         if op == "canon":
             return ["ok", canonicalize_name(r["s"])]
+        if op == "wheelname":   # build checks: PEP 427 file name → (canonical name, normal version, build, expanded tags)
+            from packaging.utils import InvalidWheelFilename, parse_wheel_filename
+            try:
+                name, ver, build, tags = parse_wheel_filename(r["s"])
+            except InvalidWheelFilename as e:
+                return ["invalid", "InvalidWheelFilename", str(e)[:200]]
+            return ["ok", name, str(ver), [str(b) for b in build], sorted(str(t) for t in tags)]
+        if op == "sdistname":
+            from packaging.utils import InvalidSdistFilename, parse_sdist_filename
+            try:
+                name, ver = parse_sdist_filename(r["s"])
+            except InvalidSdistFilename as e:
+                return ["invalid", "InvalidSdistFilename", str(e)[:200]]
+            return ["ok", name, str(ver)]
+        if op == "tags":
+            from packaging.tags import parse_tag
+            return ["ok", sorted(str(t) for t in parse_tag(r["s"]))]
     except (InvalidVersion, InvalidSpecifier, InvalidMarker, InvalidRequirement) as e:
         return ["invalid", type(e).__name__]
     except Exception as e:  # noqa: BLE001
